@@ -33,9 +33,10 @@ type Level struct {
 }
 
 type Op struct {
-	K    string   // set, setw, style, fill, clear, print, println, trunc, wrap
+	K    string   // set, setw, set0, style, fill, fillw, fill0, clear, print, println, trunc, wrap
 	C, R int      `json:",omitempty"`
 	Row  int      `json:",omitempty"`
+	G    string   `json:",omitempty"` // set0, fill0: the grapheme of the cell whose Width is left at 0 ("" = "中")
 	Segs []string `json:",omitempty"`
 }
 
@@ -60,6 +61,7 @@ const (
 	sentinelBg = 1
 	markBg     = 2
 	wideBg     = 3
+	autoBg     = 4
 	styleBg    = 5
 	segBg0     = 9 // segments use 9, 10, 11, ...
 )
@@ -71,6 +73,12 @@ var (
 	marker   = vaxis.Cell{Character: vaxis.Character{Grapheme: "M", Width: 1}, Style: vaxis.Style{Background: idx(markBg)}}
 	wideMark = vaxis.Cell{Character: vaxis.Character{Grapheme: "世", Width: 2}, Style: vaxis.Style{Background: idx(wideBg)}}
 )
+
+// autoCell is a cell whose Width is left at 0: the documented way of letting
+// Vaxis measure the grapheme (it then takes the width of the terminal it runs on).
+func autoCell(g string) vaxis.Cell {
+	return vaxis.Cell{Character: vaxis.Character{Grapheme: g}, Style: vaxis.Style{Background: idx(autoBg)}}
+}
 
 type Ctx struct {
 	G, L *trace.Interner
@@ -186,12 +194,21 @@ func Run(ctx *Ctx, sc *Scn) (evs []trace.Ev, note string) {
 		ctx.dump("%s out=%q\n", tag, stripNUL(o))
 		evs = append(evs, cv.Feed(o)...)
 	}
-	refill := func() {
+	refill := func(full bool) {
 		vx.Window().Fill(sentinel)
-		frame("sentinel")
+		if full {
+			// a wide cell that got over an edge makes the terminal wrap or scroll, which the
+			// library does not know of: repaint everything so that the rounds stay independent
+			vx.Refresh()
+			o := s.Con.Take()
+			ctx.dump("sentinel(full) out=%q\n", stripNUL(o))
+			evs = append(evs, cv.Feed(o)...)
+		} else {
+			frame("sentinel")
+		}
 		evs = append(evs, trace.Ev{"ev": "mark"})
 	}
-	refill()
+	refill(false)
 	for i, rd := range sc.Rounds {
 		op := rd.Op
 		chain := make([]map[string]any, 0, len(rd.Chain))
@@ -214,12 +231,28 @@ func Run(ctx *Ctx, sc *Scn) (evs []trace.Ev, note string) {
 			case "setw":
 				win.SetCell(op.C, op.R, wideMark)
 				chk["mk"] = []int{ctx.G.ID("世"), 2, wideBg + 1}
+			case "set0", "fill0":
+				// Width 0 = "measure it for me": the logged width is the FACT of how many
+				// cells the scenario's terminal gives the cluster (capability-dependent)
+				g := op.G
+				if g == "" {
+					g = "中"
+				}
+				chk["mk"] = []int{ctx.G.ID(g), cv.AppWidth(g), autoBg + 1}
+				if op.K == "set0" {
+					win.SetCell(op.C, op.R, autoCell(g))
+				} else {
+					win.Fill(autoCell(g))
+				}
 			case "style":
 				win.SetStyle(op.C, op.R, vaxis.Style{Background: idx(styleBg)})
 				chk["mk"] = []int{0, 1, styleBg + 1}
 			case "fill":
 				win.Fill(marker)
 				chk["mk"] = []int{ctx.G.ID("M"), 1, markBg + 1}
+			case "fillw":
+				win.Fill(wideMark)
+				chk["mk"] = []int{ctx.G.ID("世"), 2, wideBg + 1}
 			case "clear":
 				win.Clear()
 			default:
@@ -256,7 +289,7 @@ func Run(ctx *Ctx, sc *Scn) (evs []trace.Ev, note string) {
 			return evs, note
 		}
 		evs = append(evs, chk)
-		refill()
+		refill(op.K == "set0" || op.K == "setw" || op.K == "fill0" || op.K == "fillw")
 	}
 	return evs, note
 }
@@ -269,8 +302,11 @@ var modes = []string{"new", "raw", "top"}
 
 // pointOps returns the single-cell calls at (c, r).
 func pointOps(c, r int) []Op {
-	return []Op{{K: "set", C: c, R: r}, {K: "style", C: c, R: r}, {K: "setw", C: c, R: r}}
+	return []Op{{K: "set", C: c, R: r}, {K: "style", C: c, R: r}, {K: "setw", C: c, R: r}, {K: "set0", C: c, R: r}}
 }
+
+// wideFills are the fills with a two-cell cell: explicit Width 2, and Width 0 (measured by Vaxis).
+var wideFills = []Op{{K: "fillw"}, {K: "fill0"}}
 
 type batcher struct {
 	kind       string
@@ -312,9 +348,10 @@ func GenDepth1(rng *rand.Rand, frac float64, npts int) []*Scn {
 						ch := []Level{{m, c, r, w, h}}
 						b.add(Round{ch, Op{K: "fill"}})
 						b.add(Round{ch, Op{K: "clear"}})
+						b.add(Round{ch, wideFills[rng.Intn(2)]})
 						for k := 0; k < npts; k++ {
 							ops := pointOps(rng.Intn(8)-1, rng.Intn(6)-1)
-							b.add(Round{ch, ops[(k+rng.Intn(3))%3]})
+							b.add(Round{ch, ops[(k+rng.Intn(len(ops)))%len(ops)]})
 						}
 					}
 				}
@@ -348,7 +385,7 @@ func GenCoords(rng *rand.Rand, full bool) []*Scn {
 										b.add(Round{ch, o})
 									}
 								} else {
-									b.add(Round{ch, ops[rng.Intn(3)]})
+									b.add(Round{ch, ops[rng.Intn(len(ops))]})
 								}
 							}
 						}
@@ -396,8 +433,11 @@ func GenTrees(rng *rand.Rand, n int) []*Scn {
 		if rng.Intn(2) == 0 {
 			b.add(Round{ch, Op{K: "clear"}})
 		}
+		if rng.Intn(2) == 0 {
+			b.add(Round{ch, wideFills[rng.Intn(2)]})
+		}
 		for k := 0; k < 3; k++ {
-			b.add(Round{ch, pointOps(rng.Intn(8)-1, rng.Intn(6)-1)[rng.Intn(3)]})
+			b.add(Round{ch, pointOps(rng.Intn(8)-1, rng.Intn(6)-1)[rng.Intn(4)]})
 		}
 		b.add(Round{ch, randText(rng, 1+rng.Intn(6))})
 	}
